@@ -219,7 +219,12 @@ func (c *diskCache) containsWorker() {
 			}
 		}
 
-		ok, _ = c.proxy.Contains(req.ctx, cache.CAS, (*req.digest).Hash, (*req.digest).SizeBytes)
+		var foundSize int64
+		ok, foundSize = c.proxy.Contains(req.ctx, cache.CAS, (*req.digest).Hash, (*req.digest).SizeBytes)
+		if ok && isSizeMismatch((*req.digest).SizeBytes, foundSize) {
+			// The backend holds this hash with another size.
+			ok = false
+		}
 		if ok {
 			c.accessLogger.Printf("GRPC CAS HEAD %s OK", (*req.digest).Hash)
 			// The blob exists on the proxy, remove it from the
